@@ -279,7 +279,7 @@ func c19Trim(s string) string {
 func runC19(ctx *vh.Ctx) error {
 	ctx.Res.Rule = "random graphs (pregel/dag, fan-out copies, fan-in merges, single and multi branches incl. branches selecting nothing) whose streaming nodes emit through unbuffered Pipes from goroutines with blocking sends; Stream/Transform called, output read to the end / a prefix / not at all, then closed; preconditions of the property (run completes, nothing ready besides END at return, every output has a consumer) decided on the Lean model; non-trivial = >=1 goroutine producer and (fan-in | branch | cycle | >=3 nodes); distinct by canonical case"
 	ctx.Res.Rule += " || workflow family: a streaming producer (unbuffered pipe, goroutine) whose successors are data+control / data-only / control-only / branch ends, value and prefix-reading stream conditions, single and multi-way; non-trivial = a branch or >=2 successor kinds"
-	ctx.Res.Rule += " || merge family: fan-ins of 2..9 sources of different lengths (schema.MergeStreamReaders driven directly with pipes / converted readers / copies / arrays / merged readers; DAG and Pregel fan-ins into END, a prefix-reading node, a pass node with a prefix-reading stream branch; Workflow inputs; ToolsNode.Stream), the reader closes after the short sources have ended / early / reads to the end; the reader's trace is replayed on the merged-reader model, which names the senders released by the close; non-trivial = closed early with >=1 source ended and >=1 still open"
+	ctx.Res.Rule += " || merge family: fan-ins of 2..9 sources of different lengths (schema.MergeStreamReaders driven directly with pipes / converted readers / copies / arrays / merged readers; DAG and Pregel fan-ins into END, a prefix-reading node, a pass node with a prefix-reading stream branch; Workflow inputs; ToolsNode.Stream), the reader closes after the short sources have ended / early / reads to the end; the reader's trace is replayed on the merged-reader model, which names the senders released by the close; non-trivial = >=1 short (<=2 chunks) and >=1 long source and the reader closes after at least 40 chunks more than the short sources have"
 	if ctx.Replay != nil {
 		if done, err := c19wReplay(ctx, ctx.Replay); done {
 			return err
